@@ -155,6 +155,45 @@ func runC12(p *Prog, r *Report) {
 	if want("C12.5") {
 		ruleDamageReported(p, r, "C12.5")
 	}
+	if want("C12.8") {
+		r.Begin("C12.8", "E-GUARD", "the journal reader never crashes on damage: the optional Dropper (documented as possibly nil) is invoked only under a nil test, unless EVERY initialiser of Reader.dropper (NewReader and Reset alike) normalises nil to a non-nil value", 1)
+		tRd := "leveldb/journal.Reader"
+		// can a nil dropper be stored?
+		mayBeNil := ""
+		for _, fn := range p.SrcFuncs("leveldb/journal") {
+			instrs(fn, func(_ *ssa.BasicBlock, _ int, in ssa.Instruction) {
+				st, ok := in.(*ssa.Store)
+				if !ok || !isFieldAddr(st.Addr, tRd, "dropper") {
+					return
+				}
+				if !provablyNonNilIface(st.Val) {
+					mayBeNil = fnName(fn) + " at " + p.Pos(st.Pos())
+				}
+			})
+		}
+		n := 0
+		for _, fn := range p.SrcFuncs("leveldb/journal") {
+			drop := func(in ssa.Instruction) bool {
+				c, ok := in.(*ssa.Call)
+				return ok && c.Call.IsInvoke() && c.Call.Method.Name() == "Drop" && isFieldLoad(c.Call.Value, tRd, "dropper")
+			}
+			if countInstr(fn, drop) == 0 {
+				continue
+			}
+			n++
+			r.Fn(fnName(fn))
+			if mayBeNil == "" {
+				r.Site(1)
+				r.OK(fnName(fn), "dropper-never-nil", "every initialiser stores a non-nil dropper")
+				continue
+			}
+			isNil := nilAtom("dropper==nil", mFieldLoad(tRd, "dropper"))
+			checkGuard(p, r, GuardSpec{Rule: "dropper-invoked-only-if-set", Fn: fn, Target: drop, TargetDesc: "r.dropper.Drop(…) (a nil dropper can be stored by " + mayBeNil + ")", Atoms: []Atom{isNil}, G: func(a []bool) bool { return !a[0] }, GDesc: "r.dropper != nil", MinTargets: 1})
+		}
+		r.Site(1)
+		r.Check(n >= 1, "leveldb/journal", "drop-sites", "the reader reports dropped bytes to its dropper", "no Drop call found", "")
+		r.End()
+	}
 	if want("C12.7") {
 		ruleIOErrorNotCorruption(p, r, "C12.7")
 	}
@@ -447,4 +486,26 @@ func constString(p *Prog, pkgrel, name string) string {
 		return ""
 	}
 	return constValString(o)
+}
+
+// provablyNonNilIface: an interface value that cannot be nil: a concrete value boxed into the
+// interface, or a merge of such a value with a parameter (the `if x == nil { x = default }` shape).
+func provablyNonNilIface(v ssa.Value) bool {
+	switch x := v.(type) {
+	case *ssa.MakeInterface:
+		return true
+	case *ssa.Phi:
+		boxed := false
+		for _, e := range x.Edges {
+			switch e.(type) {
+			case *ssa.MakeInterface:
+				boxed = true
+			case *ssa.Parameter:
+			default:
+				return false
+			}
+		}
+		return boxed
+	}
+	return false
 }
